@@ -51,6 +51,8 @@
 //! ## Complete Examples
 //! Indepth examples [can be found here](https://github.com/lnx-search/datacake/tree/main/examples).
 
+#![allow(unexpected_cfgs)]
+
 #[macro_use]
 extern crate tracing;
 
@@ -781,5 +783,90 @@ where
         ))
     } else {
         Ok(())
+    }
+}
+
+#[cfg(datacake_verif)]
+pub mod verif {
+    //! Verification-only seams (compiled only with `--cfg datacake_verif`).
+    use super::*;
+    pub use crate::keyspace::{
+        Del,
+        Diff,
+        KeyspaceActor,
+        KeyspaceGroup,
+        KeyspaceInfo,
+        LastUpdated,
+        MultiDel,
+        MultiSet,
+        PurgeDeletes,
+        Serialize,
+        Set,
+        CONSISTENCY_SOURCE_ID,
+        NUM_SOURCES,
+        READ_REPAIR_SOURCE_ID,
+    };
+    pub use crate::replication::Repairer;
+    pub use crate::rpc::services::consistency_impl::*;
+    pub use crate::rpc::services::replication_impl::*;
+    pub use crate::rpc::{ConsistencyClient, ReplicationClient};
+
+    /// Mirrors `EventuallyConsistentStore::create`, statement for statement, but takes
+    /// the node parts instead of a chitchat backed `DatacakeNode`.
+    pub async fn create_store<S: Storage>(
+        datastore: S,
+        repair_interval: Duration,
+        node: DatacakeHandle,
+        rpc_server: &datacake_rpc::Server,
+    ) -> Result<EventuallyConsistentStore<S>, StoreError<S::Error>> {
+        let storage = Arc::new(datastore);
+
+        let group = KeyspaceGroup::new(storage.clone(), node.clock().clone()).await;
+        let statistics = SystemStatistics::default();
+
+        // Load the keyspace states.
+        group.load_states_from_storage().await?;
+
+        let task_ctx = TaskServiceContext {
+            clock: node.clock().clone(),
+            network: node.network().clone(),
+            local_node_id: node.me().node_id,
+            public_node_addr: node.me().public_addr,
+        };
+        let replication_ctx = ReplicationCycleContext {
+            repair_interval,
+            group: group.clone(),
+            network: node.network().clone(),
+        };
+        let task_service =
+            replication::start_task_distributor_service::<S>(task_ctx).await;
+        let repair_service = replication::start_replication_cycle(replication_ctx).await;
+
+        tokio::spawn(watch_membership_changes(
+            task_service.clone(),
+            repair_service.clone(),
+            node.clone(),
+        ));
+
+        rpc_server.add_service(ConsistencyService::new(
+            group.clone(),
+            node.network().clone(),
+        ));
+        rpc_server.add_service(ReplicationService::new(group.clone()));
+
+        Ok(EventuallyConsistentStore {
+            node,
+            group,
+            statistics,
+            task_service,
+            repair_service,
+        })
+    }
+
+    /// The keyspace group backing a store.
+    pub fn group_of<S: Storage>(
+        store: &EventuallyConsistentStore<S>,
+    ) -> KeyspaceGroup<S> {
+        store.group.clone()
     }
 }
